@@ -429,6 +429,9 @@ def _main(mod, prop, args, t_start):
         with open(args.replay) as f:
             doc = json.load(f)
         part = by_name.get(doc["part"])
+        if part is None:  # a part that exists only in the other tier (e.g. an exhaustive thorough-only grid)
+            other = "thorough" if tier == "quick" else "quick"
+            part = {p.name: p for p in mod.parts(other)}.get(doc["part"])
         if part is None:
             raise HarnessError(f"unknown part {doc['part']}")
         if part.setup:
